@@ -14396,27 +14396,27 @@ gcry_error_t CallasDonnerhackeFinneyShawThayerRFC4880::SymmetricEncryptAEAD
 				// exclusive-oring the low eight octets of it with the chunk
 				// index.
 				case TMCG_OPENPGP_AEADALGO_EAX:
-					ivbuf[8] ^= ((chunkidx >> 56) & 0xFF);
-					ivbuf[9] ^= ((chunkidx >> 48) & 0xFF);
- 					ivbuf[10] ^= ((chunkidx >> 40) & 0xFF);
-					ivbuf[11] ^= ((chunkidx >> 32) & 0xFF);
-					ivbuf[12] ^= ((chunkidx >> 24) & 0xFF);
-					ivbuf[13] ^= ((chunkidx >> 16) & 0xFF);
-					ivbuf[14] ^= ((chunkidx >> 8) & 0xFF);
-					ivbuf[15] ^= (chunkidx & 0xFF);
+					ivbuf[8] = iv[8] ^ ((chunkidx >> 56) & 0xFF);
+					ivbuf[9] = iv[9] ^ ((chunkidx >> 48) & 0xFF);
+ 					ivbuf[10] = iv[10] ^ ((chunkidx >> 40) & 0xFF);
+					ivbuf[11] = iv[11] ^ ((chunkidx >> 32) & 0xFF);
+					ivbuf[12] = iv[12] ^ ((chunkidx >> 24) & 0xFF);
+					ivbuf[13] = iv[13] ^ ((chunkidx >> 16) & 0xFF);
+					ivbuf[14] = iv[14] ^ ((chunkidx >> 8) & 0xFF);
+					ivbuf[15] = iv[15] ^ (chunkidx & 0xFF);
 					break;
 				// The nonce for OCB mode is computed by the exclusive-oring
 				// of the initialization vector as a 15-octet, big endian value,
 				// against the chunk index.
 				case TMCG_OPENPGP_AEADALGO_OCB:
-					ivbuf[7] ^= ((chunkidx >> 56) & 0xFF);
-					ivbuf[8] ^= ((chunkidx >> 48) & 0xFF);
- 					ivbuf[9] ^= ((chunkidx >> 40) & 0xFF);
-					ivbuf[10] ^= ((chunkidx >> 32) & 0xFF);
-					ivbuf[11] ^= ((chunkidx >> 24) & 0xFF);
-					ivbuf[12] ^= ((chunkidx >> 16) & 0xFF);
-					ivbuf[13] ^= ((chunkidx >> 8) & 0xFF);
-					ivbuf[14] ^= (chunkidx & 0xFF);
+					ivbuf[7] = iv[7] ^ ((chunkidx >> 56) & 0xFF);
+					ivbuf[8] = iv[8] ^ ((chunkidx >> 48) & 0xFF);
+ 					ivbuf[9] = iv[9] ^ ((chunkidx >> 40) & 0xFF);
+					ivbuf[10] = iv[10] ^ ((chunkidx >> 32) & 0xFF);
+					ivbuf[11] = iv[11] ^ ((chunkidx >> 24) & 0xFF);
+					ivbuf[12] = iv[12] ^ ((chunkidx >> 16) & 0xFF);
+					ivbuf[13] = iv[13] ^ ((chunkidx >> 8) & 0xFF);
+					ivbuf[14] = iv[14] ^ (chunkidx & 0xFF);
 					break;
 				default:
 					break; // should never happen
@@ -14515,24 +14515,24 @@ gcry_error_t CallasDonnerhackeFinneyShawThayerRFC4880::SymmetricEncryptAEAD
 		switch (aeadalgo)
 		{
 			case TMCG_OPENPGP_AEADALGO_EAX:
-				ivbuf[8] ^= ((chunkidx >> 56) & 0xFF);
-				ivbuf[9] ^= ((chunkidx >> 48) & 0xFF);
-				ivbuf[10] ^= ((chunkidx >> 40) & 0xFF);
-				ivbuf[11] ^= ((chunkidx >> 32) & 0xFF);
-				ivbuf[12] ^= ((chunkidx >> 24) & 0xFF);
-				ivbuf[13] ^= ((chunkidx >> 16) & 0xFF);
-				ivbuf[14] ^= ((chunkidx >> 8) & 0xFF);
-				ivbuf[15] ^= (chunkidx & 0xFF);
+				ivbuf[8] = iv[8] ^ ((chunkidx >> 56) & 0xFF);
+				ivbuf[9] = iv[9] ^ ((chunkidx >> 48) & 0xFF);
+				ivbuf[10] = iv[10] ^ ((chunkidx >> 40) & 0xFF);
+				ivbuf[11] = iv[11] ^ ((chunkidx >> 32) & 0xFF);
+				ivbuf[12] = iv[12] ^ ((chunkidx >> 24) & 0xFF);
+				ivbuf[13] = iv[13] ^ ((chunkidx >> 16) & 0xFF);
+				ivbuf[14] = iv[14] ^ ((chunkidx >> 8) & 0xFF);
+				ivbuf[15] = iv[15] ^ (chunkidx & 0xFF);
 				break;
 			case TMCG_OPENPGP_AEADALGO_OCB:
-				ivbuf[7] ^= ((chunkidx >> 56) & 0xFF);
-				ivbuf[8] ^= ((chunkidx >> 48) & 0xFF);
-				ivbuf[9] ^= ((chunkidx >> 40) & 0xFF);
-				ivbuf[10] ^= ((chunkidx >> 32) & 0xFF);
-				ivbuf[11] ^= ((chunkidx >> 24) & 0xFF);
-				ivbuf[12] ^= ((chunkidx >> 16) & 0xFF);
-				ivbuf[13] ^= ((chunkidx >> 8) & 0xFF);
-				ivbuf[14] ^= (chunkidx & 0xFF);
+				ivbuf[7] = iv[7] ^ ((chunkidx >> 56) & 0xFF);
+				ivbuf[8] = iv[8] ^ ((chunkidx >> 48) & 0xFF);
+				ivbuf[9] = iv[9] ^ ((chunkidx >> 40) & 0xFF);
+				ivbuf[10] = iv[10] ^ ((chunkidx >> 32) & 0xFF);
+				ivbuf[11] = iv[11] ^ ((chunkidx >> 24) & 0xFF);
+				ivbuf[12] = iv[12] ^ ((chunkidx >> 16) & 0xFF);
+				ivbuf[13] = iv[13] ^ ((chunkidx >> 8) & 0xFF);
+				ivbuf[14] = iv[14] ^ (chunkidx & 0xFF);
 				break;
 			default:
 				break; // should never happen
@@ -14647,24 +14647,24 @@ gcry_error_t CallasDonnerhackeFinneyShawThayerRFC4880::SymmetricEncryptAEAD
 		switch (aeadalgo)
 		{
 			case TMCG_OPENPGP_AEADALGO_EAX:
-				ivbuf[8] ^= ((chunkidx >> 56) & 0xFF);
-				ivbuf[9] ^= ((chunkidx >> 48) & 0xFF);
-				ivbuf[10] ^= ((chunkidx >> 40) & 0xFF);
-				ivbuf[11] ^= ((chunkidx >> 32) & 0xFF);
-				ivbuf[12] ^= ((chunkidx >> 24) & 0xFF);
-				ivbuf[13] ^= ((chunkidx >> 16) & 0xFF);
-				ivbuf[14] ^= ((chunkidx >> 8) & 0xFF);
-				ivbuf[15] ^= (chunkidx & 0xFF);
+				ivbuf[8] = iv[8] ^ ((chunkidx >> 56) & 0xFF);
+				ivbuf[9] = iv[9] ^ ((chunkidx >> 48) & 0xFF);
+				ivbuf[10] = iv[10] ^ ((chunkidx >> 40) & 0xFF);
+				ivbuf[11] = iv[11] ^ ((chunkidx >> 32) & 0xFF);
+				ivbuf[12] = iv[12] ^ ((chunkidx >> 24) & 0xFF);
+				ivbuf[13] = iv[13] ^ ((chunkidx >> 16) & 0xFF);
+				ivbuf[14] = iv[14] ^ ((chunkidx >> 8) & 0xFF);
+				ivbuf[15] = iv[15] ^ (chunkidx & 0xFF);
 				break;
 			case TMCG_OPENPGP_AEADALGO_OCB:
-				ivbuf[7] ^= ((chunkidx >> 56) & 0xFF);
-				ivbuf[8] ^= ((chunkidx >> 48) & 0xFF);
-				ivbuf[9] ^= ((chunkidx >> 40) & 0xFF);
-				ivbuf[10] ^= ((chunkidx >> 32) & 0xFF);
-				ivbuf[11] ^= ((chunkidx >> 24) & 0xFF);
-				ivbuf[12] ^= ((chunkidx >> 16) & 0xFF);
-				ivbuf[13] ^= ((chunkidx >> 8) & 0xFF);
-				ivbuf[14] ^= (chunkidx & 0xFF);
+				ivbuf[7] = iv[7] ^ ((chunkidx >> 56) & 0xFF);
+				ivbuf[8] = iv[8] ^ ((chunkidx >> 48) & 0xFF);
+				ivbuf[9] = iv[9] ^ ((chunkidx >> 40) & 0xFF);
+				ivbuf[10] = iv[10] ^ ((chunkidx >> 32) & 0xFF);
+				ivbuf[11] = iv[11] ^ ((chunkidx >> 24) & 0xFF);
+				ivbuf[12] = iv[12] ^ ((chunkidx >> 16) & 0xFF);
+				ivbuf[13] = iv[13] ^ ((chunkidx >> 8) & 0xFF);
+				ivbuf[14] = iv[14] ^ (chunkidx & 0xFF);
 				break;
 			default:
 				break; // should never happen
@@ -15191,27 +15191,27 @@ gcry_error_t CallasDonnerhackeFinneyShawThayerRFC4880::SymmetricDecryptAEAD
 				// exclusive-oring the low eight octets of it with the chunk
 				// index.
 				case TMCG_OPENPGP_AEADALGO_EAX:
-					ivbuf[8] ^= ((chunkidx >> 56) & 0xFF);
-					ivbuf[9] ^= ((chunkidx >> 48) & 0xFF);
- 					ivbuf[10] ^= ((chunkidx >> 40) & 0xFF);
-					ivbuf[11] ^= ((chunkidx >> 32) & 0xFF);
-					ivbuf[12] ^= ((chunkidx >> 24) & 0xFF);
-					ivbuf[13] ^= ((chunkidx >> 16) & 0xFF);
-					ivbuf[14] ^= ((chunkidx >> 8) & 0xFF);
-					ivbuf[15] ^= (chunkidx & 0xFF);
+					ivbuf[8] = iv[8] ^ ((chunkidx >> 56) & 0xFF);
+					ivbuf[9] = iv[9] ^ ((chunkidx >> 48) & 0xFF);
+ 					ivbuf[10] = iv[10] ^ ((chunkidx >> 40) & 0xFF);
+					ivbuf[11] = iv[11] ^ ((chunkidx >> 32) & 0xFF);
+					ivbuf[12] = iv[12] ^ ((chunkidx >> 24) & 0xFF);
+					ivbuf[13] = iv[13] ^ ((chunkidx >> 16) & 0xFF);
+					ivbuf[14] = iv[14] ^ ((chunkidx >> 8) & 0xFF);
+					ivbuf[15] = iv[15] ^ (chunkidx & 0xFF);
 					break;
 				// The nonce for OCB mode is computed by the exclusive-oring
 				// of the initialization vector as a 15-octet, big endian value,
 				// against the chunk index.
 				case TMCG_OPENPGP_AEADALGO_OCB:
-					ivbuf[7] ^= ((chunkidx >> 56) & 0xFF);
-					ivbuf[8] ^= ((chunkidx >> 48) & 0xFF);
- 					ivbuf[9] ^= ((chunkidx >> 40) & 0xFF);
-					ivbuf[10] ^= ((chunkidx >> 32) & 0xFF);
-					ivbuf[11] ^= ((chunkidx >> 24) & 0xFF);
-					ivbuf[12] ^= ((chunkidx >> 16) & 0xFF);
-					ivbuf[13] ^= ((chunkidx >> 8) & 0xFF);
-					ivbuf[14] ^= (chunkidx & 0xFF);
+					ivbuf[7] = iv[7] ^ ((chunkidx >> 56) & 0xFF);
+					ivbuf[8] = iv[8] ^ ((chunkidx >> 48) & 0xFF);
+ 					ivbuf[9] = iv[9] ^ ((chunkidx >> 40) & 0xFF);
+					ivbuf[10] = iv[10] ^ ((chunkidx >> 32) & 0xFF);
+					ivbuf[11] = iv[11] ^ ((chunkidx >> 24) & 0xFF);
+					ivbuf[12] = iv[12] ^ ((chunkidx >> 16) & 0xFF);
+					ivbuf[13] = iv[13] ^ ((chunkidx >> 8) & 0xFF);
+					ivbuf[14] = iv[14] ^ (chunkidx & 0xFF);
 					break;
 				default:
 					break; // should never happen
@@ -15282,24 +15282,24 @@ gcry_error_t CallasDonnerhackeFinneyShawThayerRFC4880::SymmetricDecryptAEAD
 		switch (aeadalgo)
 		{
 			case TMCG_OPENPGP_AEADALGO_EAX:
-				ivbuf[8] ^= ((chunkidx >> 56) & 0xFF);
-				ivbuf[9] ^= ((chunkidx >> 48) & 0xFF);
-				ivbuf[10] ^= ((chunkidx >> 40) & 0xFF);
-				ivbuf[11] ^= ((chunkidx >> 32) & 0xFF);
-				ivbuf[12] ^= ((chunkidx >> 24) & 0xFF);
-				ivbuf[13] ^= ((chunkidx >> 16) & 0xFF);
-				ivbuf[14] ^= ((chunkidx >> 8) & 0xFF);
-				ivbuf[15] ^= (chunkidx & 0xFF);
+				ivbuf[8] = iv[8] ^ ((chunkidx >> 56) & 0xFF);
+				ivbuf[9] = iv[9] ^ ((chunkidx >> 48) & 0xFF);
+				ivbuf[10] = iv[10] ^ ((chunkidx >> 40) & 0xFF);
+				ivbuf[11] = iv[11] ^ ((chunkidx >> 32) & 0xFF);
+				ivbuf[12] = iv[12] ^ ((chunkidx >> 24) & 0xFF);
+				ivbuf[13] = iv[13] ^ ((chunkidx >> 16) & 0xFF);
+				ivbuf[14] = iv[14] ^ ((chunkidx >> 8) & 0xFF);
+				ivbuf[15] = iv[15] ^ (chunkidx & 0xFF);
 				break;
 			case TMCG_OPENPGP_AEADALGO_OCB:
-				ivbuf[7] ^= ((chunkidx >> 56) & 0xFF);
-				ivbuf[8] ^= ((chunkidx >> 48) & 0xFF);
-				ivbuf[9] ^= ((chunkidx >> 40) & 0xFF);
-				ivbuf[10] ^= ((chunkidx >> 32) & 0xFF);
-				ivbuf[11] ^= ((chunkidx >> 24) & 0xFF);
-				ivbuf[12] ^= ((chunkidx >> 16) & 0xFF);
-				ivbuf[13] ^= ((chunkidx >> 8) & 0xFF);
-				ivbuf[14] ^= (chunkidx & 0xFF);
+				ivbuf[7] = iv[7] ^ ((chunkidx >> 56) & 0xFF);
+				ivbuf[8] = iv[8] ^ ((chunkidx >> 48) & 0xFF);
+				ivbuf[9] = iv[9] ^ ((chunkidx >> 40) & 0xFF);
+				ivbuf[10] = iv[10] ^ ((chunkidx >> 32) & 0xFF);
+				ivbuf[11] = iv[11] ^ ((chunkidx >> 24) & 0xFF);
+				ivbuf[12] = iv[12] ^ ((chunkidx >> 16) & 0xFF);
+				ivbuf[13] = iv[13] ^ ((chunkidx >> 8) & 0xFF);
+				ivbuf[14] = iv[14] ^ (chunkidx & 0xFF);
 				break;
 			default:
 				break; // should never happen
@@ -15401,24 +15401,24 @@ gcry_error_t CallasDonnerhackeFinneyShawThayerRFC4880::SymmetricDecryptAEAD
 		switch (aeadalgo)
 		{
 			case TMCG_OPENPGP_AEADALGO_EAX:
-				ivbuf[8] ^= ((chunkidx >> 56) & 0xFF);
-				ivbuf[9] ^= ((chunkidx >> 48) & 0xFF);
-				ivbuf[10] ^= ((chunkidx >> 40) & 0xFF);
-				ivbuf[11] ^= ((chunkidx >> 32) & 0xFF);
-				ivbuf[12] ^= ((chunkidx >> 24) & 0xFF);
-				ivbuf[13] ^= ((chunkidx >> 16) & 0xFF);
-				ivbuf[14] ^= ((chunkidx >> 8) & 0xFF);
-				ivbuf[15] ^= (chunkidx & 0xFF);
+				ivbuf[8] = iv[8] ^ ((chunkidx >> 56) & 0xFF);
+				ivbuf[9] = iv[9] ^ ((chunkidx >> 48) & 0xFF);
+				ivbuf[10] = iv[10] ^ ((chunkidx >> 40) & 0xFF);
+				ivbuf[11] = iv[11] ^ ((chunkidx >> 32) & 0xFF);
+				ivbuf[12] = iv[12] ^ ((chunkidx >> 24) & 0xFF);
+				ivbuf[13] = iv[13] ^ ((chunkidx >> 16) & 0xFF);
+				ivbuf[14] = iv[14] ^ ((chunkidx >> 8) & 0xFF);
+				ivbuf[15] = iv[15] ^ (chunkidx & 0xFF);
 				break;
 			case TMCG_OPENPGP_AEADALGO_OCB:
-				ivbuf[7] ^= ((chunkidx >> 56) & 0xFF);
-				ivbuf[8] ^= ((chunkidx >> 48) & 0xFF);
-				ivbuf[9] ^= ((chunkidx >> 40) & 0xFF);
-				ivbuf[10] ^= ((chunkidx >> 32) & 0xFF);
-				ivbuf[11] ^= ((chunkidx >> 24) & 0xFF);
-				ivbuf[12] ^= ((chunkidx >> 16) & 0xFF);
-				ivbuf[13] ^= ((chunkidx >> 8) & 0xFF);
-				ivbuf[14] ^= (chunkidx & 0xFF);
+				ivbuf[7] = iv[7] ^ ((chunkidx >> 56) & 0xFF);
+				ivbuf[8] = iv[8] ^ ((chunkidx >> 48) & 0xFF);
+				ivbuf[9] = iv[9] ^ ((chunkidx >> 40) & 0xFF);
+				ivbuf[10] = iv[10] ^ ((chunkidx >> 32) & 0xFF);
+				ivbuf[11] = iv[11] ^ ((chunkidx >> 24) & 0xFF);
+				ivbuf[12] = iv[12] ^ ((chunkidx >> 16) & 0xFF);
+				ivbuf[13] = iv[13] ^ ((chunkidx >> 8) & 0xFF);
+				ivbuf[14] = iv[14] ^ (chunkidx & 0xFF);
 				break;
 			default:
 				break; // should never happen
